@@ -11,6 +11,7 @@ CONSTANTS
   MaxOps = 10
   MaxProbes = 0
   SetLevels = {}
+  BadActivations = "no"
 INIT GInit
 NEXT GNext
 INVARIANT InvSessionRequired
